@@ -294,12 +294,12 @@ def gen_sched(rng: Rng, malformed: bool) -> Tuple[int, int, int]:
     return start, f, v
 
 
-def gen_resp1(rng: Rng, fail_rate: int) -> dict:
+def gen_resp1(rng: Rng, fail_rate: int, lucky: bool = False) -> dict:
     ok = not rng.chance(fail_rate, 100)
-    shape = rng.choice(["list", "dict", "dict"])
-    hosts_empty = rng.chance(1, 4)
-    contains = (not hosts_empty) and rng.chance(1, 3)
-    pg = contains and shape == "dict" and rng.chance(2, 3)
+    shape = rng.choice(["list", "dict", "dict"]) if not lucky else rng.choice(["list", "dict", "dict", "dict", "dict"])
+    hosts_empty = rng.chance(1, 4) if not lucky else rng.chance(1, 10)
+    contains = (not hosts_empty) and (rng.chance(1, 3) if not lucky else rng.chance(4, 5))
+    pg = contains and shape == "dict" and (rng.chance(2, 3) if not lucky else rng.chance(9, 10))
     return {"ok": ok, "status": "success" if ok else rng.choice(["failure", "failure", "unreachable", "pending"]),
             "shape": shape, "hostsEmpty": hosts_empty, "containsTarget": contains, "hasPg": pg}
 
@@ -315,10 +315,14 @@ def gen_tap1(rng: Rng, malformed: bool = False) -> dict:
             "nAddr": n_addr, "exfil": rng.chance(2, 3), "corrupt": rng.chance(2, 3), "cont": rng.chance(1, 2),
             "startIdx": rng.below(2), "d0": rng.range(-v, v) if v >= 0 else 0, "steps": []}
     fail_rate = rng.choice([0, 0, 5, 15, 40])
-    for _ in range(rng.range(10, 90)):
+    lucky = rng.chance(1, 2)        # scan responses that tend to find the target with an open database port
+    if lucky:
+        case["attempts"] = rng.choice([5, 20])
+        fail_rate = rng.choice([0, 0, 5, 10])
+    for _ in range(rng.range(10, 90) if not lucky else rng.range(40, 120)):
         case["steps"].append({"d1": rng.range(-v, v) if v >= 0 else 0, "d2": rng.range(-v, v) if v >= 0 else 0,
-                              "u": rng.choice(UNIFS), "dScan": rng.below(n_addr) if n_addr else 0,
-                              "resp": gen_resp1(rng, fail_rate)})
+                              "u": rng.choice(UNIFS if not lucky else UNIFS[:4]), "dScan": rng.below(n_addr) if n_addr else 0,
+                              "resp": gen_resp1(rng, fail_rate, lucky)})
     return case
 
 
